@@ -247,6 +247,11 @@ pub struct KCache {
     pub allowed: [Option<KOp>; 14],
     /// number of lookups that are answered by the oracle before the one that misses
     pub pre_hits: Cell<u32>,
+    /// if non-zero: only a lookup with exactly this many edge operands can be the one that
+    /// misses (the operand count is concrete at every call site, unlike the operator). Used
+    /// for operations whose terminal cases delegate to lower-ranked operations (ite -> and/or/
+    /// imp/not): the delegated calls are then answered by the oracle instead of being unfolded.
+    pub miss_arity: usize,
     pub gets: Cell<u32>,
     pub hits: Cell<u32>,
     pub adds: Cell<u32>,
@@ -260,6 +265,7 @@ impl KCache {
             top_done: Cell::new(false),
             allowed: [None; 14],
             pre_hits: Cell::new(0),
+            miss_arity: 0,
             gets: Cell::new(0),
             hits: Cell::new(0),
             adds: Cell::new(0),
@@ -327,7 +333,7 @@ impl<'id> ApplyCache<KManager<'id>, KOp> for KCache {
         // NOTE: the hit/miss decision must stay *concrete* for the symbolic executor (the
         // operator is data-dependent after enum merges), hence a plain counter of lookups:
         // the first `pre_hits` lookups hit, the next one misses (top-level body), all later hit.
-        if !self.top_done.get() {
+        if !self.top_done.get() && (self.miss_arity == 0 || ops.0.len() == self.miss_arity) {
             if self.pre_hits.get() == 0 {
                 self.top_done.set(true);
                 return None;
